@@ -101,7 +101,8 @@ const char *Chunk::ElidedText(char *for_the_copy) const
       {
          memset(for_the_copy, 0, 1000);
 
-         if (test_it_length < truncate_value + 30)
+         if (  truncate_value >= 30
+            && test_it_length < truncate_value + 30)
          {
             strncpy(for_the_copy, test_it, truncate_value - 30);
             for_the_copy[truncate_value - 30] = 0;
